@@ -68,9 +68,12 @@ def parse_anom(line):
 
 def shard_sweep(shard):
     flags, mode, alpha, length, prefix, deadline = shard
-    drv = get_driver('asan')
+    variant = 'asan'
+    if '@' in mode:
+        mode, variant = mode.split('@')
+    drv = get_driver(variant)
     drv.define_schema('KS', KS.spec())
-    st = ShardStats('bytes len=%d' % length)
+    st = ShardStats('bytes len=%d%s' % (length, '' if variant == 'asan' else ' (%s)' % variant))
     prog = os.path.join(BUILD, 'err', 'progress.%d' % os.getpid())
     resume = '-'
     symtoks = ' '.join(enc(a) for a in alpha)
@@ -366,6 +369,19 @@ def shard_sources(shard):
                        b''):
             cases.append((robust_case('KS', fl, target, None, 'parse', pre=fix, fork=True, horizon=20, quiet=True), True))
             cases.append((robust_case('KS', fl, b'include("' + target + b'") b = z', None, 'parse_buf', pre=fix, fork=True, horizon=20, quiet=True), False))
+    # diagnostics without a user error function go to stderr (never stdout); declarations with a repeated name only draw a diagnostic
+    DUP = Schema('DUP', [Opt('int', 'a', '', 1), Opt('int', 'a', '', 2), Opt('str', 'A', '', b'x'), Opt('sec', 's', '', sub=[Opt('int', 'x', '', 1), Opt('int', 'x', '', 2)])])
+    SCHEMAS['DUP'] = DUP
+    drv.define_schema('DUP', DUP.spec())
+    for t in texts + [b'a = 5 A = y s { x = 3 }', b'zz = 1', b'a = {']:
+        if b'\0' in t:
+            continue
+        for sid, fl in (('KS', 0), ('DUP', 0), ('DUP', CFGF['NOCASE'])):
+            c = Case(fix + ['init A %s %d noerr' % (sid, fl), 'cb_quiet 1', 'parse_buf A ' + enc(t), 'stdoutcheck', 'dump A 7', 'print A', 'free A'], fork=True, horizon=20)
+            r = drv.run([c])[0]
+            script_case = Case(['root ' + enc(root)] + c.lines)
+            judge_robust(st, sid, script_case, r, None)
+            st.transitions += 1
     for c, fok in cases:
         if time.time() > deadline:
             st.complete = False
@@ -385,7 +401,7 @@ def main():
         engine.replay_file(ck.replay)
         return
     quick = ck.tier == 'quick'
-    engine.build(['asan'] if quick else ['asan', 'plain'])
+    engine.build(['asan'] if quick else ['asan', 'plain', 'msan'])
     dl = ck.deadline
     alpha, nclasses, added = byte_alphabet()
     ck.cov['scanner_equivalence_classes'] = nclasses
@@ -431,6 +447,18 @@ def main():
                     shards.append((sid, fl, n, ch, dl))
         engine.phase(ck, 'E1 token sequences N=%d' % n, shard_e1, shards, schemas=len(S.family_F()), flagsets=len(FLAGSETS))
     if not quick:
+        # MemorySanitizer pass (uninitialised reads): short byte strings, shapes up to 10^3, under clang -fsanitize=memory
+        for length in (1, 2, 3):
+            shards = []
+            for fl in (FLAGSETS[0], FLAGSETS[4]):
+                if length <= 2:
+                    shards.append((fl, 'buf@msan', alpha, length, (), dl))
+                else:
+                    for i in range(A):
+                        shards.append((fl, 'buf@msan', alpha, length, (i,), dl))
+            engine.phase(ck, 'MSan: byte strings of length %d' % length, shard_sweep, shards, alphabet=A, flagsets=2)
+        shm = [s for s in shapes(1000)]
+        engine.phase(ck, 'MSan: shape families n <= 10^3', shard_shapes, [(list(c), 'msan', dl) for c in engine.chunks(shm, 12)], shapes=len(shm))
         sh = [s for s in shapes(100000) if s[1] > 10000]
         engine.phase(ck, 'shape families n = 10^5 (plain build)', shard_shapes, [([c], 'plain', dl) for c in sh], shapes=len(sh))
         for length in (5,):
